@@ -428,7 +428,10 @@ impl Column {
                 let start = xs.get_start();
                 let len = xs.get_len() as usize;
                 let step = xs.get_step();
-                let decoded = (0..len).map(|i| start + i as i64 * step).collect();
+                // Every value fits i64 but `i * step` need not (e.g. three values spanning most of the i64 range)
+                let decoded = (0..len)
+                    .map(|i| start.wrapping_add((i as i64).wrapping_mul(step)))
+                    .collect();
                 Column::Int(decoded)
             }
         };
